@@ -646,6 +646,16 @@ def decorators(fn):
     return out
 
 
+KNOWN_DECORATORS = {"property", "staticmethod", "classmethod", "abstractmethod", "abc.abstractmethod", "override",
+                    "typing.override", "overload", "typing.overload", "no_type_check", "final", "typing.final"}
+
+
+def unknown_decorators(fn):
+    """decorators that may replace the function by something else (the body read here is then not what runs)"""
+    return sorted(d for d in decorators(fn) if d not in KNOWN_DECORATORS
+                  and not d.endswith((".setter", ".getter", ".deleter")))
+
+
 def dotted(node):
     """a.b.c -> 'a.b.c' for pure attribute chains on a Name, else None"""
     parts = []
@@ -1084,6 +1094,8 @@ class Translator:
             bad_dunders = self.prog.unhandled_dunders()
             if bad_dunders:
                 raise Unsupported(f"classes define special methods that are called implicitly and not followed: {bad_dunders[:5]}")
+            if unknown_decorators(fn):
+                raise Unsupported(f"decorated with {unknown_decorators(fn)}: the function that runs is the decorator's result")
             ir = self._translate(mod, fn, cls_key, constructor, params)
             # fail closed per variable: one that is read while possibly unbound is bound to `unknown` at entry
             poisoned, own_doing = [], set()
@@ -2690,6 +2702,8 @@ class Scope:
         if len(stack) >= Translator.MAX_DEPTH or key in stack:
             self.tr.diag.append(f"inline limit at {fn.name}")
             return self.unknown_call(f"{fn.name} (inline limit)", args + list(kwargs.values()), out, fn)
+        if isinstance(fn, ast.FunctionDef) and unknown_decorators(fn):
+            return self.unknown_call(f"{fn.name} (decorated: {unknown_decorators(fn)})", args + list(kwargs.values()), out, fn)
         sc = Scope(self.tr, mod, cls_key)
         own_names = assigned_names(fn) | {n for n, _ in Translator.param_names(fn)}
         if closure is not None:  # free variables of a nested function are the enclosing scope's (read when it runs)
